@@ -252,6 +252,8 @@ class C11(Check):
         if idx in (0, self.nominal[name]["n"] - 1):
             for fault in ("write", "read"):
                 for j in (1, 2, 3):
+                    if j >= len(self.bringup):
+                        continue      # a shorter bring-up on this tree: exchange j is the command's own
                     for kind2 in ("timeout", "write", "read"):
                         self.second(name, idx, fault, follows[0], j, kind2, stats, vs)
         return vs
